@@ -10,7 +10,7 @@ LEVEL = "exploration"
 RULE = ("real runs: impedance family in {collimator (pure resistance), resistive wall, free-space CSR, parallel-plates CSR, "
         "generated impedance file (smooth passive Z)}; the bunch current is constructed from a pilot run (wake of the unit "
         "Gaussian at a reference current, the wake being linear in the current) so that the potential-well distortion D = max "
-        "over the core of |(1/theta) int W dq - mean| hits a drawn target in 0.05..1; GridSize 64/96/128, StepsPerTs 100..400, "
+        "over the core of |(1/theta) int W dq - mean| hits a drawn target in 0.05..1; GridSize 64/96/128, StepsPerTs 100..400 (one case in six: 1000/2000/4000 steps per period from a start zoom of 0.5 or 2), "
         "damping time 2..8 synchrotron periods (per-step decrement inside the stable range), start zoom 0.7..1.5, run length 8 "
         "damping times.  Oracle on the last record: std over the core of ln rho + q^2/2 - (1/theta) int W dq.  non-trivial = "
         "D >= 0.05 and the wrong-sign residual is >= 5 x the tolerance; non-stationary runs are discarded and counted")
@@ -83,7 +83,7 @@ def run_case(case):
         o["RoundPadding"] = True
         o["alpha0"] = gen.f32(cfggen.alpha0_for_spacing(case["sps"], dict(o, BunchCurrent=pat)))
     o["DampingTime"] = P / cfggen.derive(dict(o, BunchCurrent=pat))["fs"]
-    cls = [fam, "n%d" % n] + (["twobunch"] if len(pat) > 1 else [])
+    cls = [fam, "n%d" % n] + (["twobunch"] if len(pat) > 1 else []) + (["finesteps"] if steps >= 1000 else [])
     pilot = dict(o, BunchCurrent=[I0 * x for x in pat], rotations=float(np.float32(0.5 / steps)), outstep=1)
     r = cli.run(["-c", "/dev/null", "-o", "p.h5"] + cli.optargs(pilot), wd, timeout=600)
     if r.rc != 0 or "Finished." not in r.out:
@@ -175,8 +175,16 @@ def cases(draw, fast=True):
     two = fam != "file" and draw(st.integers(0, 2)) == 0
     # a train is only informative if the two bunches' wakes differ by much more than the tolerance
     dlo = 0.3 if two else 0.05
+    zooms = [0.7, 1.0, 1.2, 1.5]
+    if not two and draw(st.integers(0, 5)) == 0:
+        # many steps per synchrotron period: the wake kick per step is a few thousandths of a cell or less, and the start
+        # is far from equilibrium, so the kick map has to follow small changes of the wake over a long history (round-4
+        # seed C05d: source-map entries refreshed only when the kick changed by more than 1e-3 cells)
+        n, P = 64, 2.0
+        steps = draw(st.sampled_from([1000, 2000, 4000]))
+        zooms = [0.5, 2.0]
     return dict(n=n, steps=steps, P=P, family=fam,
-                D=float(10 ** draw(st.floats(np.log10(dlo), np.log10(max(dmax, dlo * 1.2))))), zoom=draw(st.sampled_from([0.7, 1.0, 1.2, 1.5])),
+                D=float(10 ** draw(st.floats(np.log10(dlo), np.log10(max(dmax, dlo * 1.2))))), zoom=draw(st.sampled_from(zooms)),
                 it=it, deriv=draw(st.sampled_from([3, 4])),
                 zr=float(10 ** draw(st.floats(1, 3))), zl=float(draw(st.floats(-1, 1))),
                 ratio=(draw(st.sampled_from([0.2, 0.3, 0.5])) if two else 0.0),
